@@ -296,15 +296,15 @@ public:
     TasmanianSparseGrid();
     //! \brief Copy constructor, note that the selected acceleration mode is not copied, acceleration is reset to the default.
     TasmanianSparseGrid(const TasmanianSparseGrid &source);
-    //! \brief Move constructor, the selected acceleration mode is also carried over.
-    TasmanianSparseGrid(TasmanianSparseGrid &&source) = default;
+    //! \brief Move constructor, the selected acceleration mode is also carried over, the source is left empty and can be reused.
+    TasmanianSparseGrid(TasmanianSparseGrid &&source);
     //! \brief Destructor, releases all resources.
     ~TasmanianSparseGrid() = default;
 
     //! \brief Copy assignment, note that the selected acceleration mode is not copied, acceleration is reset to the default.
     TasmanianSparseGrid& operator=(TasmanianSparseGrid const &source);
-    //! \brief Move assignment, the selected acceleration mode is also carried over.
-    TasmanianSparseGrid& operator=(TasmanianSparseGrid &&source) = default;
+    //! \brief Move assignment, the selected acceleration mode is also carried over, the source is left empty and can be reused.
+    TasmanianSparseGrid& operator=(TasmanianSparseGrid &&source);
 
     //! \brief Return a hard-coded character string with the version in format "Major.Minor".
     static const char* getVersion(); // human readable
